@@ -627,12 +627,35 @@ def heavy_positions(mat):
     return [g for g in mat.items if len(g["legal"]) >= 30]
 
 
+def changing_best(wd, cands):
+    """positions whose reported best move changes from one iteration to the next in an undisturbed `go depth 3` (a pre-scan through the
+    harness; it only orders the candidates - interrupting such an iteration is where a half-finished result can differ from the
+    completed one)"""
+    cases = [{"id": i + 1, "family": "engine", "kind": "inproc", "steps": [{"t": "position", "fen": g["fen"], "moves": g.get("moves", [])}, {"t": "go", "depth": 3}]}
+             for i, g in enumerate(cands)]
+    tr = run_harness("engine", cases, wd, "prescan", "C16")
+    firsts = {}
+    for e in read_ndjson(tr):
+        if e.get("ev") == "out" and isinstance(e.get("m"), dict) and e["m"].get("kind") == "info" and e["m"].get("pv"):
+            firsts.setdefault(e["c"], []).append(e["m"]["pv"][0])
+    return [g for i, g in enumerate(cands) if len(set(firsts.get(i + 1, []))) > 1]
+
+
 def plan_c09(wd, rng, T, mat, lite=False):
     inproc, binary, sweeps = [], [], []
     sparse = [g for g in mat.items if 3 <= len(g["legal"]) <= 26]
     # (lite, for C16: more positions, fewer abort points each - what matters there is an iteration in which the best root move changes)
-    for g in rng.sample(sparse, min(len(sparse), (24 if T else 2) if not lite else (40 if T else 16))):
-        sweeps.append({"id": len(sweeps) + 1, "family": "engine", "kind": "sweep", "fen": g["fen"], "moves": [],
+    nsw = (24 if T else 2) if not lite else (40 if T else 16)
+    wide = [g for g in mat.items if 3 <= len(g["legal"]) <= 45] if lite else sparse
+    pool = rng.sample(wide, min(len(wide), 4 * nsw))
+    if lite:
+        # ... and the positions one legal move further on (the legal moves are TLC's)
+        pool = pool + [{"fen": g["fen"], "moves": [m], "legal": g["legal"]} for g in pool if len(g["legal"]) <= 32 for m in rng.sample(g["legal"], min(3, len(g["legal"])))]
+    moving = changing_best(wd, pool)
+    chosen = (moving + [g for g in pool if g not in moving])[:nsw]
+    log("abort sweeps: %d of %d candidate positions change their best move between iterations; %d sweeps" % (len(moving), len(pool), len(chosen)))
+    for g in chosen:
+        sweeps.append({"id": len(sweeps) + 1, "family": "engine", "kind": "sweep", "fen": g["fen"], "moves": g.get("moves", []),
                        "steps": [{"t": "abort_sweep", "depth": 3, "max": (6000 if T else 500) if not lite else (1000 if T else 120), "seed": rng.randrange(1 << 30)}]})
     if T:
         for g in rng.sample(sparse, min(len(sparse), 3)):
